@@ -261,6 +261,11 @@ func (c *Counter) releaseLock(state counterStateBits) {
 			}
 		}
 
+		if state.extra() != 0 && c.ptr.count == nil {
+			// extra arrived after the pointer was deliberately left nil above
+			// (or a file has been mapped since): load it now, we hold the lock.
+			c.ptr = c.file.lookup(c.name)
+		}
 		if extra := state.extra(); extra != 0 && c.ptr.count != nil {
 			if !c.state.update(&state, state.clearExtra()) {
 				continue
